@@ -414,7 +414,7 @@ def run(rng, res, tier, shard, nshards):
                 from ..result import Result
                 f2 = check_case(c, Result('C02', 'shrink', 0, 0), count=False)
                 return f2 is not None and f2[0] == key
-            small = case if 'history' in case else shrink_case(case, still, max_runs=60)[0]
+            small = case if ('history' in case or key in res.viol_counts or len(res.viol_counts) >= 4) else shrink_case(case, still, max_runs=60)[0]
             res.violation(key, what, {'minimised': small, 'original': case})
     if budget.timed_out():
         res.notes['time-cap-hit'] = True
